@@ -349,17 +349,26 @@ class EngineVsStatement(Bounded):
                 ps = [F(n_, 48) for n_ in range(-48, 48 * 10 + 1)]       # every tick: values off the binary grid
             if self.what == "time_at":
                 prev = None
+                seen_t = {}
                 for b in ps:
                     if b >= 0 and eng.bpm_at(Beat(b)) != tl.bpm_at(b):
                         bad = f"bpm_at({b}) = {eng.bpm_at(Beat(b))}, the last BPM change at or before it is {tl.bpm_at(b)}"
                     for tag in TL.TAGS:
                         cases += 1
                         got = F(float(eng.time_at(Beat(b), getattr(EventTag, tag))))
+                        seen_t[(b, tag)] = got
                         if abs(got - tl.time_at(b, tag)) > tol:
                             bad = f"time_at({b}, {tag}) = {float(got)}, the statement gives {float(tl.time_at(b, tag))}"
                         if prev is not None and got < prev - tol:
                             bad = f"time decreases at ({b}, {tag})"
                         prev = got
+                # the same engine asked again in another order (backwards, tags reversed) gives the same answers: no query leaves
+                # state behind that a later query picks up
+                for b in reversed(ps[::2]):
+                    for tag in reversed(TL.TAGS):
+                        again = F(float(eng.time_at(Beat(b), getattr(EventTag, tag))))
+                        if again != seen_t[(b, tag)]:
+                            bad = f"time_at({b}, {tag}) = {float(again)} when asked after later beats, {float(seen_t[(b, tag)])} on the first pass over the same engine"
                 # offset shift and redundant BPM change (every third configuration in the quick tier)
                 if tier == "quick" and idx % 3:
                     if bad:
@@ -386,6 +395,7 @@ class EngineVsStatement(Bounded):
                 e3 = TL.real_engine(tl3)
                 prev = None
                 times = []
+                seen_b = []
                 for b in ps:
                     for tag in TL.TAGS:
                         times.append(tl.time_at(b, tag))
@@ -413,6 +423,11 @@ class EngineVsStatement(Bounded):
                     rw = eng.beat_at(float(t), EventTag.WARP)
                     if rw > r:
                         bad = f"beat_at({float(t)}, WARP) = {rw} lies after the default answer {r}"
+                    seen_b.append((float(t), r, rw))
+                # the same engine asked again backwards, WARP first: same answers (no state carried between queries)
+                for t_, r_, rw_ in reversed(seen_b):
+                    if eng.beat_at(t_, EventTag.WARP) != rw_ or eng.beat_at(t_) != r_ or eng.beat_at(t_, EventTag.WARP) != rw_:
+                        bad = f"beat_at({t_}) / beat_at({t_}, WARP) change when the same engine is asked again in another order"
             if bad:
                 failures.append(dict(input=desc(tl), detail=bad))
                 if len(failures) >= 3:
